@@ -17,6 +17,7 @@ import WD.Proofs.Pipeline.BurstFiles
 import WD.Proofs.Pipeline.BurstFlat
 import WD.Proofs.Pipeline.BurstGrow
 import WD.Proofs.Pipeline.Paced
+import WD.Proofs.Pipeline.BurstMkRename
 import WD.Proofs.Pipeline.Theorems
 namespace WD.C01
 open WD WD.Pipe
@@ -220,5 +221,22 @@ example :
                [.mkdir ["W", "e", "x", "z"], .create ["W", "e", "x", "z", "g"], .mkdir ["W", "n"], .mkdir ["W", "n", "m"]]]
     pacedOKB (Sys.start fs0 true false) bs = true ∧
     ((Sys.start fs0 true false).runBursts bs).2.flatten.length = 38 := by decide +kernel
+
+
+/-- "created and immediately renamed": `mkdir p; rename p q` issued back to back and read as one batch (both parents
+    directories of the tree, `q` a free name) delivers exactly what the two operations deliver one at a time - a created
+    event for the old name, one moved event with both names, the parents' modified events - although the reader never sees
+    the directory under its old name (the CREATE record finds nothing to watch, the MOVED_TO finds no watch to re-key);
+    this kind of burst is also admitted by `pacedOK` / `replay_paced_partial` -/
+theorem burst_created_and_renamed_partial (fs0 : FS) (hwf : fs0.WF) (full : Bool) (pre : List Op) (p q : P)
+    (hv : allValid (Sys.start fs0 true full) pre = true) (hroot : Op.rmdir ["W"] ∉ pre)
+    (hb : mkRenameB ((Sys.start fs0 true full).run pre).1 [.mkdir p, .rename p q] = true) :
+    (((Sys.start fs0 true full).run pre).1.burst [.mkdir p, .rename p q]).2 =
+      (contractRun ((Sys.start fs0 true full).run pre).1.fs true full [.mkdir p, .rename p q]).flatten := by
+  obtain ⟨inv, hs, hc⟩ := after_history fs0 hwf full pre hv hroot
+  simp only [mkRenameB, Bool.and_eq_true, beq_iff_eq, decide_eq_true_eq, Bool.not_eq_true', bne_iff_ne, ne_eq] at hb
+  obtain ⟨⟨⟨⟨⟨⟨⟨_, a1⟩, a2⟩, a3⟩, a4⟩, a5⟩, a6⟩, a7⟩ := hb
+  have := (burst_mkdir_rename_replay _ p q inv hs hc a1 a2 a3 a4 a5 a6 a7).1
+  rw [this, run_full, (start_rec fs0 hwf full).2.2.2.2]
 
 end WD.C01
